@@ -44,7 +44,7 @@ class C15(Prop):
     assumptions = ["numerical tolerance 1e-9 (scale, float64) / 2e-4 (z-scores, float32); astropy's biweight is "
                    "validated, not modelled", "z-score equivariance is not required when the scale estimate is zero "
                    "(documented unit-scale fallback)"]
-    regimes_expected = ["scale-affine", "zscore-affine", "axis-None", "axis-0", "axis-1", "const", "lane-const"]
+    regimes_expected = ["scale-affine", "zscore-affine", "axis-None", "axis-0", "axis-1", "const", "lane-const", "fortran-order"]
     budget_s = (200, 1200)
 
     def _case(self, rng, kind=None):
@@ -55,7 +55,7 @@ class C15(Prop):
         return {"kind": kind, "scale": rng.choice(SCALES), "loc": rng.choice(LOCS + ("norm",)), "shape": shape,
                 "axis": axis, "a": rng.choice((1.0, -1.0, 0.015625, 64.0, -2.0, 0.25, -100.0 * 0 + -32.0)),
                 "b": rng.choice((0.0, 3.0, -1024.0, 0.5)), "dkind": rng.choice(("rand", "rand", "ties", "outliers", "const", "lane-const")),
-                "dseed": rng.randrange(1 << 30)}
+                "dseed": rng.randrange(1 << 30), "order": rng.choice(("C", "C", "F"))}
 
     def gen(self, rng, tier):
         k = 1 if tier == "quick" else 6
@@ -65,6 +65,7 @@ class C15(Prop):
                 c = self._case(rng, "axis")
                 c.update(scale=sc, axis=ax, shape=[9, 10], dkind="rand")
                 cases.append(c)
+                cases.append(dict(c, order="F" if c.get("order") != "F" else "C", dseed=c["dseed"] + 1))
                 if ax != "None":     # every method with a constant lane among varying ones
                     c2 = self._case(rng, "axis")
                     c2.update(scale=sc, axis=ax, shape=[9, 10], dkind="lane-const")
@@ -80,6 +81,10 @@ class C15(Prop):
         from sigpyproc.core import stats as S
 
         x = make(case)
+        if case.get("order") == "F" and x.ndim == 2:
+            # same values, column-major memory (what read_block hands out: a transposed view): "the flattened
+            # data" is the logical row-major flattening whatever the memory layout
+            x = np.asfortranarray(x)
         ax = None if case["axis"] == "None" else case["axis"]
         a, b = case["a"], case["b"]
         if case["loc"] == "norm":
@@ -202,7 +207,7 @@ class C15(Prop):
         if case["dkind"] == "lane-const" and len(case["shape"]) == 2 and case["axis"] != "None":
             return "lane-const"
         if case["kind"] == "axis":
-            return f"axis-{case['axis']}"
+            return [f"axis-{case['axis']}"] + (["fortran-order"] if case.get("order") == "F" and len(case["shape"]) == 2 else [])
         return case["kind"]
 
     def nontrivial(self, case, obs):
